@@ -108,7 +108,7 @@ def sysChunks (st : SysSt) : List Nat → SysSt × String
     (st2, f1 ++ f2)
 
 def sysCallback (st : SysSt) (frames : Nat) : Option (SysSt × String) := do
-  let sizes ← chunkSizes frames st.ibs
+  let sizes ← modChunkSizes frames st.ibs
   -- on_start_processing: mixer (main track), …, modulators
   let mainVol := Lfo.readCommand st.mainVol st.mainCmd
   let sounds := st.sounds ++ st.soundsPending
